@@ -7,6 +7,7 @@ import CookModel.Driver.Group
 import CookModel.Driver.StdMeta
 import CookModel.Driver.Ffi
 import CookModel.Driver.Serde
+import CookModel.Driver.Builder
 /- Registry of line-protocol handlers. One line per area. -/
 namespace Cook.Driver
 def handlers : List (List String → Option String) := [
@@ -18,6 +19,7 @@ def handlers : List (List String → Option String) := [
   handleGroup,
   handleStdMeta,
   handleFfi,
-  handleSerde
+  handleSerde,
+  handleBuilder
 ]
 end Cook.Driver
